@@ -223,6 +223,8 @@ func runStream1(c *vkit.Case, p sPlan) {
 		return w
 	}
 
+	// The inputs are passed as a window into a sentinel-guarded array (argument integrity).
+	guard, streams := guardArgs(streams, func() stream.Stream[uint64] { return &recIn{} })
 	var m stream.Stream[uint64]
 	if pn := vkit.Try(func() { m = stream.Merge(streams...) }); pn != nil {
 		c.Violation("smerge-panic", fmt.Sprintf("stream.Merge of %d inputs panicked: %s", n, pn.Msg), witness(map[string]any{"stack": trunc(pn.Stack, 4000)}))
@@ -436,6 +438,14 @@ func runStream1(c *vkit.Case, p sPlan) {
 		}
 		c.Violation("smerge-goroutine-leak", fmt.Sprintf("after Close of stream.Merge over %d inputs returned (consumer outcome %s after %d items), %d of its goroutines stay parked for good", n, outNames[outcome], len(got), len(left)),
 			hist(map[string]any{"goroutines": trunc(raw, 8000)}))
+		return
+	}
+
+	// The caller's slice of inputs is untouched (the goroutines index it while they run; they are gone now).
+	r.Eval(1)
+	r.Count("argument integrity checks", "stream.Merge", 1)
+	if what := guard.verify(); what != "" {
+		c.Violation("smerge-argument-mutated", fmt.Sprintf("stream.Merge(ins...) over %d inputs changed the caller's slice of inputs: %s", n, what), hist(nil))
 		return
 	}
 
